@@ -73,4 +73,12 @@ VX_ND(uint64_t, u64) VX_ND(size_t, size) VX_ND(ptrdiff_t, ptrdiff)
 #define VX_PIKA_ASSERT(...) VX_ASSERT((__VA_ARGS__), "PIKA_ASSERT(" #__VA_ARGS__ ")")
 #define VX_UNREACHABLE() VX_ASSERT(0, "PIKA_UNREACHABLE reached")
 
+
+/* lowered try/catch (vx.lift.TryCatch): a call marked VX_THROW_POINT may transfer control to the handler */
+#ifndef VX_TRY_BEGIN
+#define VX_TRY_BEGIN(k) ((void) 0)
+#define VX_CATCH_BEGIN(k) ((void) 0)
+#define VX_THROW_TO(label) do { if (nondet_bool()) goto label; } while (0)
+#endif
+
 #endif
